@@ -48,8 +48,11 @@ def run(tier, seed):
         if cls == "afssh" and mname == "super": mname, x0, k, bound = setups[0]
         sd = rng.randrange(2 ** 31); ns = rng.randint(2, 4)
         C = dict(fssh=mudslide.TrajectorySH, cumulative=mudslide.TrajectoryCum, ehrenfest=mudslide.Ehrenfest, afssh=mudslide.AugmentedFSSH, es=EvenSamplingTrajectory)[cls]
+        shared_zl = [rng.random() for _ in range(6)] if cls in ("fssh", "cumulative", "afssh") and it % 2 == 0 else None
+        zl_before = list(shared_zl) if shared_zl is not None else None
         def batch(nsamp):
             kw = dict(samples=nsamp, dt=20.0, bounds=[-bound, bound], max_steps=600, tracemanager=TraceManager())
+            if shared_zl is not None: kw["zeta_list"] = shared_zl       # one list object handed to every member and to every run
             if cls == "es": kw.update(spawn_stack=[3, 2], quadrature="gl", mcsamples=2); kw["samples"] = 1
             b = BatchedTraj(M[mname](), TrajGenConst([x0], [k], 0, seed=sd), C, **kw)
             r = b.compute()
@@ -59,6 +62,13 @@ def run(tier, seed):
         same = len(r1) == len(r2) and all(snaps_equal(a[0], b[0]) and a[1] == b[1] and repr(a[2]) == repr(b[2]) and a[3] == b[3] for a, b in zip(r1, r2))
         if not same:
             bad.append(dict(failed="repeating a run with the same seeds yields identical snapshots and events", case=info))
+        if shared_zl is not None:
+            res.count("shared-threshold-list")
+            if shared_zl != zl_before:
+                bad.append(dict(failed="a user-supplied threshold list is not consumed destructively (the caller's list changed)", case=info))
+            firsts = [float(t[0][1]["zeta"]) if len(t[0]) > 1 else None for t in r1] if cls == "fssh" else []
+            if cls == "fssh" and any(f is not None and f != zl_before[0] for f in firsts):
+                bad.append(dict(failed="every batch member consumes the user-supplied thresholds in the order given before any generator number (first thresholds used: %r, supplied %r)" % (firsts, zl_before[0]), case=info))
         res.count("repeat/" + cls); res.case(("rep", cls, mname, sd, ns), True, info)
         if cls != "es":
             r3 = batch(ns + rng.randint(1, 3))
@@ -81,6 +91,19 @@ def run(tier, seed):
     kc.append(tup(lst([nat(3)]), lst([nat(1)] * 4), lst([lst([lst([nat(x) for x in k])]) for k in ks]))); kmeta.append(dict(kind="even-sampling clone keys", keys=ks))
     if len(set(map(tuple, ks))) != 4:
         bad.append(dict(failed="even-sampling spawns receive a fresh stream each", case=dict(keys=ks)))
+    # (c') every trajectory of a complete even-sampling tree has its own stream
+    import p10
+    for mname, x0, k, bound in [("simple", -3.0, 8.0, 4.0), ("super", -5.0, 8.0, 6.0)]:
+        for mcs in (1, 2):
+            with p10.Instr() as inst:
+                b = BatchedTraj(M[mname](), TrajGenConst([x0], [k], 0, seed=rng.randrange(2 ** 31)), EvenSamplingTrajectory,
+                                samples=1, dt=20.0, bounds=[-bound, bound], max_steps=600, spawn_stack=[3, 2], quadrature="midpoint", mcsamples=mcs)
+                b.compute()
+                keys = [(repr(t.seed_sequence.entropy), tuple(t.seed_sequence.spawn_key)) for t in inst.trajs]
+                states = [repr(t.random_state.bit_generator.state["state"]) for t in inst.trajs]
+            res.count("es-tree-streams", len(keys)); res.case(("estree", mname, mcs), True)
+            if len(set(keys)) != len(keys):
+                bad.append(dict(failed="even-sampling spawns receive a fresh stream each: %d trajectories share seed sequences in one tree" % (len(keys) - len(set(keys))), case=dict(model=mname, mcsamples=mcs, keys=keys[:8])))
     # (d) thresholds: user list in order, then generator numbers
     for it in range(nrep * 3):
         cls = ["fssh", "cumulative", "afssh"][it % 3]
